@@ -1,23 +1,46 @@
 import Claripy.AST.Expr
 /-!
-Bit-level normal form of the *bit-rearranging* operations (`Concat`, `Extract`, `ZeroExt`, `SignExt` over literals and
-arbitrary other terms): every bit of the result is a literal bit or a named bit `t[i]` of a term `t` the normal form
-does not look into.  Two expressions with the same list of bits (and whose terms are among the terms of the first) have
-the same value — this decides the rewrites of `extract_simplifier`, `concat_simplifier`, `zeroext_simplifier`, … that only
-move bits around (extract of concat, extract of extract, concat of adjacent extracts, extract of an extension, …).
+Bit-level normal form of the *bit-rearranging* operations (`Concat`, `Extract`, `ZeroExt`, `SignExt`, `Reverse`, `Not`, shifts
+by literals, `And`/`Or`/`Xor`, `If`, over literals and arbitrary other terms).  Every bit of the result is
+  * a literal bit,
+  * a (possibly complemented) named bit `t[i]` of a term `t` the normal form does not look into,
+  * a (possibly complemented) bitwise operation on two such bits — a literal operand simplifies, which is what makes masks
+    work; two symbolic operands are kept in the order of the node,
+  * `if c then a else b` for a Boolean term `c` the form does not look into (equal branches need no condition; two different
+    literal branches are the condition itself as a bit).
+Two expressions with the same list of bits (and whose opaque terms are among those of the first) have the same value — this
+decides the rewrites of `extract_simplifier`, `concat_simplifier`, `zeroext_simplifier`, … that move bits around (extract of
+concat, extract of extract, concat of adjacent extracts, extract of an extension, …), also when the same step distributes
+the `Extract` over a bitwise operation or an `If`.
 
 `bitsEquiv lhs rhs` is the executable certificate check; `ClaripyProofs/Lemmas/AST/BitsSound.lean` proves it sound for every
 width and assignment.
 -/
 namespace Claripy.AST
 
+/-- a bitwise operation on two bits -/
+inductive BitK where
+  | and | or | xor
+  deriving DecidableEq, Repr
+
+def BitK.g : BitK → Bool → Bool → Bool
+  | .and, x, y => x && y
+  | .or, x, y => x || y
+  | .xor, x, y => x ^^ y
+
 inductive Bit where
   | c (b : Bool)
   | of (t : Expr) (i : Nat) (neg : Bool)      -- bit `i` of `t`, complemented if `neg`
+  | p (t : Expr) (neg : Bool)                 -- the Boolean term `t` as a bit, complemented if `neg`
+  | bin (k : BitK) (a b : Bit) (neg : Bool)   -- `a k b`, complemented if `neg`
+  | mux (c : Expr) (a b : Bit)                -- `if c then a else b`
 
 def Bit.beq : Bit → Bit → Bool
   | .c a, .c b => a == b
   | .of t i ng, .of u j ng' => t == u && i == j && ng == ng'
+  | .p t ng, .p u ng' => t == u && ng == ng'
+  | .bin k a b ng, .bin k' a' b' ng' => decide (k = k') && Bit.beq a a' && Bit.beq b b' && ng == ng'
+  | .mux e a b, .mux e' a' b' => e == e' && Bit.beq a a' && Bit.beq b b'
   | _, _ => false
 
 instance : BEq Bit := ⟨Bit.beq⟩
@@ -25,39 +48,48 @@ instance : BEq Bit := ⟨Bit.beq⟩
 def Bit.not : Bit → Bit
   | .c b => .c (!b)
   | .of t i ng => .of t i (!ng)
+  | .p t ng => .p t (!ng)
+  | .bin k a b ng => .bin k a b (!ng)
+  | .mux e a b => .mux e a.not b.not
 
-/-- bitwise operations are followed only where one side is a literal bit -/
-def Bit.and? : Bit → Bit → Option Bit
-  | .c false, _ => some (.c false)
-  | .c true, x => some x
-  | _, .c false => some (.c false)
-  | x, .c true => some x
-  | _, _ => none
+/-- bitwise operations: a literal bit simplifies (this is what makes masks work); two symbolic bits are kept as written,
+operands in the order of the node (claripy keeps the operand order when it distributes `Extract`) -/
+def Bit.and : Bit → Bit → Bit
+  | .c false, _ => .c false
+  | .c true, x => x
+  | _, .c false => .c false
+  | x, .c true => x
+  | x, y => .bin .and x y false
 
-def Bit.or? : Bit → Bit → Option Bit
-  | .c true, _ => some (.c true)
-  | .c false, x => some x
-  | _, .c true => some (.c true)
-  | x, .c false => some x
-  | _, _ => none
+def Bit.or : Bit → Bit → Bit
+  | .c true, _ => .c true
+  | .c false, x => x
+  | _, .c true => .c true
+  | x, .c false => x
+  | x, y => .bin .or x y false
 
-def Bit.xor? : Bit → Bit → Option Bit
-  | .c false, x => some x
-  | .c true, x => some x.not
-  | x, .c false => some x
-  | x, .c true => some x.not
-  | _, _ => none
+def Bit.xor : Bit → Bit → Bit
+  | .c false, x => x
+  | .c true, x => x.not
+  | x, .c false => x
+  | x, .c true => x.not
+  | x, y => .bin .xor x y false
 
-def zipBits (f : Bit → Bit → Option Bit) : List Bit → List Bit → Option (List Bit)
+/-- `if c then a else b` on bits: equal branches need no condition; two different literals are the condition itself -/
+def Bit.ite (e : Expr) (a b : Bit) : Bit :=
+  if a == b then a else
+  match a, b with
+  | .c true, .c false => .p e false
+  | .c false, .c true => .p e true
+  | _, _ => .mux e a b
+
+def zipBits (f : Bit → Bit → Bit) : List Bit → List Bit → Option (List Bit)
   | [], [] => some []
-  | a :: as, b :: bs =>
-    match f a b, zipBits f as bs with
-    | some r, some rs => some (r :: rs)
-    | _, _ => none
+  | a :: as, b :: bs => (zipBits f as bs).map (f a b :: ·)
   | _, _ => none
 
 /-- n-ary bitwise node: fold over the operands' bits -/
-def foldBits (f : Bit → Bit → Option Bit) : List (Option (List Bit)) → Option (List Bit) → Option (List Bit)
+def foldBits (f : Bit → Bit → Bit) : List (Option (List Bit)) → Option (List Bit) → Option (List Bit)
   | [], acc => acc
   | some b :: rest, some acc => foldBits f rest (zipBits f acc b)
   | _, _ => none
@@ -83,6 +115,11 @@ def shiftAmt : Expr → Option (Nat × Nat)
   | .app _ [_, .bvv v w] => some (v % 2 ^ w, w)
   | _ => none
 
+/-- the condition of an `If` node -/
+def iteCond : Expr → Option Expr
+  | .app .ite [c, _, _] => some c
+  | _ => none
+
 /-- bits of a node from the bits of its operands (`none`: the node is not looked into) -/
 def bitsOf (op : Op) (self : Expr) (obs : List (Option (List Bit))) : Option (List Bit) :=
   match op, obs with
@@ -95,9 +132,13 @@ def bitsOf (op : Op) (self : Expr) (obs : List (Option (List Bit))) : Option (Li
     | none => none
   | .bnot, [some b] => some (b.map Bit.not)
   | .reverse, [some b] => if b.length % 8 = 0 then some (revBytes b) else none
-  | .band, some b0 :: r :: rest => foldBits Bit.and? (r :: rest) (some b0)
-  | .bor, some b0 :: r :: rest => foldBits Bit.or? (r :: rest) (some b0)
-  | .bxor, some b0 :: r :: rest => foldBits Bit.xor? (r :: rest) (some b0)
+  | .band, some b0 :: r :: rest => foldBits Bit.and (r :: rest) (some b0)
+  | .bor, some b0 :: r :: rest => foldBits Bit.or (r :: rest) (some b0)
+  | .bxor, some b0 :: r :: rest => foldBits Bit.xor (r :: rest) (some b0)
+  | .ite, [_, some a, some b] =>
+    match iteCond self with
+    | some c => if c.width.isNone then zipBits (Bit.ite c) a b else none
+    | none => none
   | .lshr, [some a, some _] =>
     match shiftAmt self with
     | some (k, ws) => if ws = a.length then some (a.drop k ++ List.replicate (min k a.length) (Bit.c false)) else none
@@ -116,7 +157,7 @@ def bitsOf (op : Op) (self : Expr) (obs : List (Option (List Bit))) : Option (Li
 /-- normal form of a node from the normal forms of its operands: (bits, terms treated as opaque) -/
 def normApp (op : Op) (self : Expr) (subs : List (Option (List Bit) × List Expr)) : Option (List Bit) × List Expr :=
   match bitsOf op self (subs.map (·.1)) with
-  | some r => (some r, subs.flatMap (·.2))
+  | some r => ((some r), (iteCond self).toList ++ subs.flatMap (·.2))
   | none => (opaqueBits self, [self])
 
 mutual
@@ -144,28 +185,41 @@ def bitsEquiv (lhs rhs : Expr) : Bool :=
 /-! ### equalities, bit by bit
 
 `a == b` on bit-vectors is the conjunction of the per-bit equalities.  A pair of literal bits is trivially true or
-refutes the whole equality; a pair of equal named bits is trivially true, of complementary named bits refutes it; what
-remains are atoms `t[i] = rhs`.  Two (dis)equalities with the same set of atoms (and the same polarity) have the same
-value: this decides the comparison simplifiers that strip masks, zero extensions and literal bit mismatches
-(`(x & 1) == 1 ⇒ x[0:0] == 1`, `ZeroExt(2, x) != c ⇒ x != c'`, `Concat(0, x) == c ⇒ false` …). -/
+refutes the whole equality; a pair of syntactically equal bits (up to the outermost complement) is trivially true, of
+complementary ones refutes it; what remains are atoms `lhs = rhs` on bits.  Two (dis)equalities with the same set of atoms
+(and the same polarity) have the same value: this decides the comparison simplifiers that strip masks, zero extensions and
+literal bit mismatches (`(x & 1) == 1 ⇒ x[0:0] == 1`, `ZeroExt(2, x) != c ⇒ x != c'`, `Concat(0, x) == c ⇒ false`,
+`((x | y) & 1) != 0 ⇒ (x[0:0] | y[0:0]) != 0`, `Concat(0, If(c, 0, 3)) != 3 ⇒ c` …). -/
 structure EqAtom where
-  t : Expr
-  i : Nat
+  lhs : Bit
   rhs : Bit
 
-instance : BEq EqAtom := ⟨fun a b => a.t == b.t && a.i == b.i && a.rhs == b.rhs⟩
+instance : BEq EqAtom := ⟨fun a b => a.lhs == b.lhs && a.rhs == b.rhs⟩
 
 inductive PairNF where
   | triv
   | absurd
   | atom (a : EqAtom)
 
-def normPair : Bit → Bit → PairNF
-  | .c a, .c b => if a == b then .triv else .absurd
-  | .of t i ng, .c b => .atom ⟨t, i, .c (b ^^ ng)⟩
-  | .c b, .of t i ng => .atom ⟨t, i, .c (b ^^ ng)⟩
-  | .of t i ng, .of u j ng' =>
-    if t == u && i == j then (if ng == ng' then .triv else .absurd) else .atom ⟨t, i, .of u j (ng ^^ ng')⟩
+/-- a bit without its outermost complement, and that complement (a literal is the complement of `0` or `0` itself) -/
+def Bit.strip : Bit → Bit × Bool
+  | .c b => (.c false, b)
+  | .of t i ng => (.of t i false, ng)
+  | .p t ng => (.p t false, ng)
+  | .bin k a b ng => (.bin k a b false, ng)
+  | .mux e a b => (.mux e a b, false)
+
+def Bit.xorNeg (x : Bit) (n : Bool) : Bit := if n then x.not else x
+
+/-- `x = y` on two bits: the complements are moved to the right-hand side; syntactically equal bits are trivially equal or
+refute the equality; a literal goes to the right -/
+def normPair (x y : Bit) : PairNF :=
+  let (x', nx) := x.strip
+  let (y', ny) := y.strip
+  if x' == y' then (if nx == ny then .triv else .absurd)
+  else match x' with
+    | .c b0 => .atom ⟨y', .c (b0 ^^ nx ^^ ny)⟩
+    | _ => .atom ⟨x', y'.xorNeg (nx ^^ ny)⟩
 
 def zipPairs : List Bit → List Bit → Option (List PairNF)
   | [], [] => some []
@@ -194,10 +248,10 @@ def BoolNF.negate : BoolNF → BoolNF
   | .const b => .const (!b)
   | .conj n as => .conj (!n) as
 
-/-- canonical polarity: no atoms is a constant; a negated single literal atom is the atom with the other literal -/
+/-- canonical polarity: no atoms is a constant; a negated single atom against a literal is the atom with the other literal -/
 def BoolNF.canon : BoolNF → BoolNF
   | .conj n [] => .const (!n)
-  | .conj true [⟨t, i, .c v⟩] => .conj false [⟨t, i, .c (!v)⟩]
+  | .conj true [⟨l, .c v⟩] => .conj false [⟨l, .c (!v)⟩]
   | x => x
 
 def eqNF (a b : List Bit) : Option BoolNF :=
@@ -221,9 +275,19 @@ def BoolNF.same : BoolNF → BoolNF → Bool
   | .conj n as, .conj m bs => n == m && as.isPerm bs
   | _, _ => false
 
+/-- the right-hand side of a comparison rewrite may also be a bare Boolean term `c` (or `Not(c)`): the atom `c = 1` (`c = 0`).
+This is what a comparison of an `If` between two literals with one of them collapses to. -/
+def boolNFr (e : Expr) : Option (BoolNF × List Expr) :=
+  match boolNF e with
+  | some r => some r
+  | none =>
+    match e with
+    | .app .not [c] => if c.width.isNone then some (.conj false [⟨.p c false, .c false⟩], [c]) else none
+    | c => if c.width.isNone then some (.conj false [⟨.p c false, .c true⟩], [c]) else none
+
 /-- is `lhs ⇒ rhs` a rewrite of a bit-vector (dis)equality into one with the same per-bit atoms? -/
 def cmpEquiv (lhs rhs : Expr) : Bool :=
-  match boolNF lhs, boolNF rhs with
+  match boolNF lhs, boolNFr rhs with
   | some (x, tl), some (y, tr) => x.canon.same y.canon && tr.all fun t => tl.elem t
   | _, _ => false
 
